@@ -18,12 +18,15 @@ func init() {
 		"reference: partitions by value equality, functions by definition", c17SpelledRun)
 }
 
+// c17OnlySeq, when set (replay), restricts the families spelled and wide-keys to the one table with this column
+var c17OnlySeq []string
+
 var c17SpelledVals = []string{"", "1", "01", "+1", "2.5", "2.50", "25e-1", "3"}
 
 func c17SpelledRun(c *core.Ctx) {
 	dir := core.Scratch("c17spelled")
 	maxRows := 3
-	if c.Thorough() {
+	if c.Thorough() || c17OnlySeq != nil {
 		maxRows = 4
 	}
 	const sql = "SELECT id, COUNT(*) OVER (PARTITION BY p), SUM(v) OVER (PARTITION BY p), ROW_NUMBER() OVER (PARTITION BY p ORDER BY id), LISTAGG(id, '-') OVER (PARTITION BY p ORDER BY id), " +
@@ -37,18 +40,22 @@ func c17SpelledRun(c *core.Ctx) {
 		}
 		for code := 0; code < total; code++ {
 			idx++
-			if !c.Mine(idx) {
-				continue
-			}
-			if c.Expired() {
-				c.Incomplete("time budget reached in family spelled")
-				return
-			}
 			ps := make([]string, k)
 			x := code
 			for i := range ps {
 				ps[i] = c17SpelledVals[x%n]
 				x /= n
+			}
+			if c17OnlySeq != nil {
+				if strings.Join(ps, ",") != strings.Join(c17OnlySeq, ",") {
+					continue
+				}
+			} else if !c.Mine(idx) {
+				continue
+			}
+			if c.Expired() {
+				c.Incomplete("time budget reached in family spelled")
+				return
 			}
 			var sb strings.Builder
 			sb.WriteString("id,p,v\n")
